@@ -1,0 +1,87 @@
+//! Verification seam (feature `verif-hooks`, off by default).
+//!
+//! Replaces the randomly seeded `ahash` hasher of the hash sets in `preprocessing` by one whose
+//! iteration order can be dictated by a harness, so that every iteration order can be enumerated.
+//! With no order installed the hasher is a freshly seeded `ahash::RandomState`, exactly as in
+//! production.
+use std::cell::RefCell;
+use std::hash::{BuildHasher, Hasher};
+
+thread_local! {
+    static ORDER: RefCell<Option<Vec<u64>>> = const { RefCell::new(None) };
+}
+
+/// Install (or remove, with `None`) the hash permutation for the current thread:
+/// a key `k` then hashes to `perm[k % perm.len()]`.
+pub fn set_hash_order(perm: Option<Vec<u64>>) {
+    ORDER.with(|o| *o.borrow_mut() = perm);
+}
+
+pub enum OrderBuild {
+    Production(ahash::RandomState),
+    Fixed(Vec<u64>),
+}
+
+impl Default for OrderBuild {
+    fn default() -> Self {
+        ORDER.with(|o| match &*o.borrow() {
+            None => OrderBuild::Production(ahash::RandomState::new()),
+            Some(p) => OrderBuild::Fixed(p.clone()),
+        })
+    }
+}
+
+pub enum OrderHasher {
+    Production(ahash::AHasher),
+    Fixed { perm: Vec<u64>, key: u64 },
+}
+
+impl Hasher for OrderHasher {
+    fn finish(&self) -> u64 {
+        match self {
+            OrderHasher::Production(h) => h.finish(),
+            OrderHasher::Fixed { perm, key } => {
+                // std's table takes the control byte from the top 7 bits and the bucket from the low bits
+                let v = perm[(*key as usize) % perm.len()];
+                v | (v << 57)
+            }
+        }
+    }
+    fn write(&mut self, bytes: &[u8]) {
+        match self {
+            OrderHasher::Production(h) => h.write(bytes),
+            OrderHasher::Fixed { key, .. } => {
+                for (i, b) in bytes.iter().enumerate().take(8) {
+                    *key |= (*b as u64) << (8 * i);
+                }
+            }
+        }
+    }
+    fn write_u8(&mut self, i: u8) {
+        match self {
+            OrderHasher::Production(h) => h.write_u8(i),
+            OrderHasher::Fixed { key, .. } => *key = i as u64,
+        }
+    }
+    fn write_usize(&mut self, i: usize) {
+        match self {
+            OrderHasher::Production(h) => h.write_usize(i),
+            OrderHasher::Fixed { key, .. } => *key = i as u64,
+        }
+    }
+}
+
+impl BuildHasher for OrderBuild {
+    type Hasher = OrderHasher;
+    fn build_hasher(&self) -> OrderHasher {
+        match self {
+            OrderBuild::Production(s) => OrderHasher::Production(s.build_hasher()),
+            OrderBuild::Fixed(p) => OrderHasher::Fixed {
+                perm: p.clone(),
+                key: 0,
+            },
+        }
+    }
+}
+
+pub type HashSet<T> = std::collections::HashSet<T, OrderBuild>;
